@@ -876,6 +876,8 @@ class FnTr:
             sym = {ast.Add: '+', ast.Sub: '-', ast.Mult: '*'}[type(e.op)]
             if a.typ == b.typ == 'R' or (a.typ == b.typ == 'Int' and sym == '*'):
                 return Val(f'({a.text} {sym} {b.text})', a.typ)
+            if sym == '+' and a.typ == b.typ and a.typ.startswith('List '):
+                return Val(f'({a.text} ++ {b.text})', a.typ)
             table = {('Dt', '+', 'Td'): 'Dt', ('Dt', '-', 'Td'): 'Dt', ('Dt', '-', 'Dt'): 'Td', ('Td', '+', 'Td'): 'Td',
                      ('Td', '-', 'Td'): 'Td', ('Int', '+', 'Int'): 'Int', ('Int', '-', 'Int'): 'Int', ('Td', '+', 'Dt'): 'Dt'}
             t = table.get((a.typ, sym, b.typ))
@@ -1037,6 +1039,8 @@ class FnTr:
                 raise Unsupported(f'zip of {a.typ}, {b.typ}')
             if f.id == 'cast' and len(e.args) == 2:
                 return self.expr(e.args[1])
+            if f.id == 'bool' and len(e.args) == 1:
+                return Val(self.truth(self.expr(e.args[0])), 'Bool')
             if f.id == 'float' and len(e.args) == 1:
                 v = self.expr(e.args[0])
                 if v.typ == 'R':
